@@ -10,6 +10,8 @@ R17.next   succ*/pred* = isfinite(x) ? nextafter(x, +-inf) : x ; finitef/finited
 R17.col    Vec3 / Color4 colour overloads: same value graph on r,g,b, alpha passes through; integer element
            types are scaled by exactly numeric_limits<T>::max() in double; packed channel slices
 R17.roots  degenerate leading coefficients delegate to the lower-degree solver; quadratic uses the stable q form
+           solveNormalizedCubic on the double-root cell D = 0, p != 0: n = 2 and {simple root, double root}, both signs of q
+           (complex callees replaced by their C99 / libstdc++ definitions on that cell)
 """
 from fractions import Fraction
 from engine import term as T, agg, build, vg, ordd, poly as P, polycheck as PC, bits as B
